@@ -8516,9 +8516,16 @@ pub fn recover_from_frames_and_commits(
     mode: RecoveryAccessMode,
 ) -> Result<RecoveryScanReport, WalRecoveryError> {
     validate_recovery_frame_order(frames)?;
-    let mut recovered = Vec::new();
+    let mut recovered: Vec<WalRecoveredTransaction> = Vec::new();
     let mut last_committed_lsn = None;
     for commit in commits {
+        // Commit markers cover adjacent LSN ranges: a duplicated or reordered marker is
+        // damage, not a second transaction.
+        if let Some(previous) = recovered.last() {
+            if previous.commit.last_lsn.checked_next() != Some(commit.first_lsn) {
+                return Err(WalValidationError::LsnContinuityMismatch.into());
+            }
+        }
         let tx_frames: Vec<WalFrame> = frames
             .iter()
             .filter(|frame| {
@@ -8534,6 +8541,21 @@ pub fn recover_from_frames_and_commits(
             frames: tx_frames,
         });
         last_committed_lsn = Some(commit.last_lsn);
+    }
+    // Only the tail after the last commit may be uncommitted: frames whose commit marker is
+    // missing in the middle of the log mean a committed transaction was damaged.
+    if let Some(last) = last_committed_lsn {
+        let orphaned = frames.iter().any(|frame| {
+            frame.header.lsn <= last
+                && !recovered.iter().any(|transaction| {
+                    transaction.commit.transaction_id == frame.header.transaction_id
+                        && frame.header.lsn >= transaction.commit.first_lsn
+                        && frame.header.lsn <= transaction.commit.last_lsn
+                })
+        });
+        if orphaned {
+            return Err(WalValidationError::UncommittedFramesInsideCommittedHistory.into());
+        }
     }
     let tail_exists = frames
         .iter()
@@ -9869,6 +9891,15 @@ pub enum WalValidationError {
     /// Affected frontier kind does not match transaction kind.
     #[error("WAL transaction affected frontier kind mismatch")]
     FrontierTransitionKindMismatch,
+    /// A commit marker does not chain to the commit recovered before it.
+    #[error("WAL commit does not chain to the previous committed transaction")]
+    PreviousCommitDigestMismatch,
+    /// A frame does not chain to the frame recovered before it.
+    #[error("WAL frame does not chain to the previous frame")]
+    PreviousFrameDigestMismatch,
+    /// Frames without a commit marker lie inside the committed LSN range.
+    #[error("WAL frames without a commit marker lie inside committed history")]
+    UncommittedFramesInsideCommittedHistory,
 }
 
 /// WAL store errors.
